@@ -64,7 +64,7 @@ def t_p1_poisson_tri(c):
     V = c.space(m, _el("Lagrange", "triangle", 1))
     u, v = ufl.TrialFunction(V), ufl.TestFunction(V)
     f = c.coef(V)
-    return [inner(grad(u), grad(v)) * dx + u * v * dx, f * v * dx]
+    return [inner(grad(u), grad(v)) * dx + inner(u, v) * dx, inner(f, v) * dx]
 
 
 def t_p2_poisson_tri(c):
@@ -73,7 +73,7 @@ def t_p2_poisson_tri(c):
     u, v = ufl.TrialFunction(V), ufl.TestFunction(V)
     f = c.coef(V)
     k = c.const(m)
-    return [k * f * inner(grad(u), grad(v)) * dx + u * v * dx]
+    return [k * f * inner(grad(u), grad(v)) * dx + inner(u, v) * dx]
 
 
 def t_mixed3_tri(c):
@@ -88,7 +88,7 @@ def t_mixed3_tri(c):
     (v, q, s) = ufl.TestFunctions(W)
     g = c.coef(c.space(m, _el("Lagrange", cell, 3)))
     w = c.coef(W)
-    a = (inner(grad(u), grad(v)) - div(v) * p + q * div(u) + g * r * s + w[2] * p * q) * dx
+    a = (inner(grad(u), grad(v)) - inner(p, div(v)) + inner(div(u), q) + g * inner(r, s) + w[2] * inner(p, q)) * dx
     return [a]
 
 
@@ -111,7 +111,7 @@ def t_prism_facets(c):
     V = c.space(m, _el("Lagrange", cell, 1))
     u, v = ufl.TrialFunction(V), ufl.TestFunction(V)
     f = c.coef(V)
-    return [u * v * ds + f * u * v * dx, f * v * ds]
+    return [inner(u, v) * ds + f * inner(u, v) * dx, inner(f, v) * ds]
 
 
 def t_multi_degree_tri(c):
@@ -120,7 +120,8 @@ def t_multi_degree_tri(c):
     V = c.space(m, _el("Lagrange", cell, 2))
     v = ufl.TestFunction(V)
     f = c.coef(V)
-    L = f * v * dx(degree=1) + f**2 * v * dx(degree=3) + f**3 * v * dx(degree=5) + f * v * ds(degree=2)
+    L = (inner(f, v) * dx(degree=1) + inner(f**2, v) * dx(degree=3) + inner(f**3, v) * dx(degree=5)
+         + inner(f, v) * ds(degree=2))
     return [L]
 
 
@@ -136,7 +137,7 @@ def t_elasticity_tet(c):
     def eps(w):
         return sym(grad(w))
 
-    a = (2 * mu * inner(eps(u), eps(v)) + lm * tr(eps(u)) * tr(eps(v))) * dx
+    a = (2 * mu * inner(eps(u), eps(v)) + lm * inner(tr(eps(u)), tr(eps(v)))) * dx
     L = inner(b + f, v) * dx
     return [a, L]
 
@@ -149,8 +150,8 @@ def t_interior_facet_tri(c):
     f = c.coef(V)
     k = c.const(m)
     n = FacetNormal(m)
-    a = (k * inner(jump(u, n), jump(v, n)) - inner(avg(grad(u)), jump(v, n)) + avg(f) * jump(u) * jump(v)) * dS
-    return [a + u * v * dx]
+    a = (k * inner(jump(u, n), jump(v, n)) - inner(avg(grad(u)), jump(v, n)) + avg(f) * inner(jump(u), jump(v))) * dS
+    return [a + inner(u, v) * dx]
 
 
 def t_quad_q2(c):
@@ -159,7 +160,7 @@ def t_quad_q2(c):
     V = c.space(m, _el("Lagrange", cell, 2))
     u, v = ufl.TrialFunction(V), ufl.TestFunction(V)
     f = c.coef(V)
-    return [f * inner(grad(u), grad(v)) * dx + u * v * dx]
+    return [f * inner(grad(u), grad(v)) * dx + inner(u, v) * dx]
 
 
 def t_subdomains_tri(c):
@@ -169,7 +170,8 @@ def t_subdomains_tri(c):
     u, v = ufl.TrialFunction(V), ufl.TestFunction(V)
     f = c.coef(V)
     k = c.const(m)
-    return [u * v * ds(1) + k * u * v * ds(2) + f * u * v * dx((1, 2)) + u * v * dx + 2 * u * v * dx(3)]
+    w = inner(u, v)
+    return [w * ds(1) + k * w * ds(2) + f * w * dx((1, 2)) + w * dx + 2 * w * dx(3)]
 
 
 def t_math_tri(c):
@@ -179,7 +181,7 @@ def t_math_tri(c):
     v = ufl.TestFunction(V)
     f, g = c.coef(V), c.coef(V)
     x = ufl.SpatialCoordinate(m)
-    return [conditional(lt(f, 0.5), sin(f) * g, exp(g) + cos(x[0])) * v * dx]
+    return [inner(conditional(lt(ufl.real(f), 0.5), sin(f) * g, exp(g) + cos(x[0])), v) * dx]
 
 
 def t_hdiv_hcurl_tri(c):
@@ -190,7 +192,7 @@ def t_hdiv_hcurl_tri(c):
     W = c.space(m, basix.ufl.mixed_element([RT, N1]))
     (s, e) = ufl.TrialFunctions(W)
     (t, w) = ufl.TestFunctions(W)
-    return [(inner(s, t) + inner(e, w) + div(s) * div(t)) * dx]
+    return [(inner(s, t) + inner(e, w) + inner(div(s), div(t))) * dx]
 
 
 def t_manifold_tri(c):
@@ -217,6 +219,34 @@ def t_hex_q1(c):
     V = c.space(m, _el("Lagrange", cell, 1))
     u, v = ufl.TrialFunction(V), ufl.TestFunction(V)
     return [inner(grad(u), grad(v)) * dx]
+
+
+def _tp(c, cell, degree):
+    """Tensor-product elements (the ones sum factorisation applies to), as in test/test_tensor_product.py."""
+    gdim = _TDIM[cell]
+    ct = basix.CellType[cell]
+    var = basix.LagrangeVariant.gll_warped
+    el = basix.ufl.wrap_element(basix.create_tp_element(basix.ElementFamily.P, ct, degree, var))
+    co = basix.ufl.blocked_element(
+        basix.ufl.wrap_element(basix.create_tp_element(basix.ElementFamily.P, ct, 1, var)), shape=(gdim,))
+    for _ in range(c.route):
+        ufl.Mesh(co)
+    m = ufl.Mesh(co)
+    return m, c.space(m, el)
+
+
+def t_tp_quad_q2(c):
+    m, V = _tp(c, "quadrilateral", 2)
+    u, v = ufl.TrialFunction(V), ufl.TestFunction(V)
+    f = c.coef(V)
+    return [f * inner(grad(u), grad(v)) * dx + inner(u, v) * dx, inner(f, v) * dx]
+
+
+def t_tp_hex_q2(c):
+    m, V = _tp(c, "hexahedron", 2)
+    u, v = ufl.TrialFunction(V), ufl.TestFunction(V)
+    k = c.const(m)
+    return [k * inner(grad(u), grad(v)) * dx]
 
 
 # ---------------------------------------------------------------------------
@@ -268,6 +298,8 @@ FORM_TEMPLATES = {
     "manifold_tri": t_manifold_tri,
     "p2_geometry_tri": t_p2_geometry_tri,
     "hex_q1": t_hex_q1,
+    "tp_quad_q2": t_tp_quad_q2,
+    "tp_hex_q2": t_tp_hex_q2,
     "expr_p2_tri": t_expr_p2_tri,
     "expr_vec_tet": t_expr_vec_tet,
 }
@@ -329,7 +361,7 @@ def _req_mass_lit(c, lit):
     m = c.mesh("triangle")
     V = c.space(m, _el("Lagrange", "triangle", 1))
     u, v = ufl.TrialFunction(V), ufl.TestFunction(V)
-    return "forms", [LITERALS[lit] * u * v * dx]
+    return "forms", [LITERALS[lit] * inner(u, v) * dx]
 
 
 def _req_stokes(c):
@@ -338,7 +370,7 @@ def _req_stokes(c):
     W = c.space(m, basix.ufl.mixed_element([_el("Lagrange", cell, 2, shape=(2,)), _el("Lagrange", cell, 1)]))
     (u, p) = ufl.TrialFunctions(W)
     (v, q) = ufl.TestFunctions(W)
-    return "forms", [(inner(grad(u), grad(v)) - div(v) * p + q * div(u)) * dx]
+    return "forms", [(inner(grad(u), grad(v)) - inner(p, div(v)) + inner(div(u), q)) * dx]
 
 
 def _req_quad_mass(c):
@@ -347,7 +379,7 @@ def _req_quad_mass(c):
     V = c.space(m, _el("Lagrange", cell, 2))
     u, v = ufl.TrialFunction(V), ufl.TestFunction(V)
     f = c.coef(V)
-    return "forms", [f * u * v * dx + inner(grad(u), grad(v)) * ds]
+    return "forms", [f * inner(u, v) * dx + inner(grad(u), grad(v)) * ds]
 
 
 def _req_two_forms(c):
@@ -355,7 +387,7 @@ def _req_two_forms(c):
     V = c.space(m, _el("Lagrange", "triangle", 1))
     u, v = ufl.TrialFunction(V), ufl.TestFunction(V)
     f = c.coef(V)
-    return "forms", [u * v * dx + u * v * ds(1) + u * v * ds(2), f * v * dx]
+    return "forms", [inner(u, v) * dx + inner(u, v) * ds(1) + inner(u, v) * ds(2), inner(f, v) * dx]
 
 
 def _req_prism(c):
